@@ -401,6 +401,10 @@ from extract_dag import dag_section  # noqa: E402  (M6 tie, DAG construction: Da
 EXTRA_SECTIONS.append(dag_section)
 SECTION_PROPS["extract_dag"] = ["C01", "C02", "C03", "C04", "C05", "C06", "C08", "C09", "C10", "C17"]
 
+from extract_argsgen import argsgen_section  # noqa: E402  (M5 tie: ArgsGen.lean / Properties/ArgsTie.lean)
+EXTRA_SECTIONS.append(argsgen_section)
+SECTION_PROPS["extract_argsgen"] = ["C07"]
+
 
 def main(write: bool = True) -> int:
     import json
